@@ -129,11 +129,40 @@ def thread_check(ctx, seed):
     return thread_probe(ctx, 'get_cycle_vector (%d samples)' % tcase['n'], calls, 4 if tcase['n'] > 100000 else 12, tcase)
 
 
+def reload_probe(ctx, rng):
+    """Process history: a reference to the routine taken before emd.cycles is reloaded (importlib.reload, what an interactive
+    session or an auto-reloading notebook does) keeps working, with its documented defaults."""
+    import importlib
+    import emd.cycles
+    held = emd.cycles.get_cycle_vector
+    phis = [gens.synthetic_phase(rng, ncycles=int(rng.integers(2, 9))) for _ in range(5)]
+    before = [(np.asarray(held(p.copy())), np.asarray(held(p.copy(), return_good=True))) for p in phis]
+    importlib.reload(emd.cycles)
+    ctx.count('module_reloads')
+    for p, (b0, b1) in zip(phis, before):
+        case = {'kind': 'reload', 'phase': p}
+        ctx.case(digest(p, 'reload'), True)
+        try:
+            a0, a1 = np.asarray(held(p.copy())), np.asarray(held(p.copy(), return_good=True))
+            f0 = np.asarray(emd.cycles.get_cycle_vector(p.copy()))
+        except Exception as e:
+            ctx.violation('exception-after-reload:%s' % type(e).__name__, 'get_cycle_vector (reference held from before importlib.reload(emd.cycles)) raised %s: %s'
+                          % (type(e).__name__, str(e)[:100]), case)
+            return
+        if not (np.array_equal(a0, b0) and np.array_equal(a1, b1) and np.array_equal(f0, b0)):
+            ctx.violation('changed-after-reload', 'cycle detection gives a different labelling after importlib.reload(emd.cycles)', case)
+            return
+        ctx.count('calls_through_a_reference_held_across_a_reload', 2)
+
+
 def run_shard(ctx):
     from emd import cycles as C
     rng = ctx.rng
     if ctx.shard % 4 == 1:
         thread_check(ctx, int(rng.integers(1 << 30)))
+    if ctx.shard % 4 == 3:
+        reload_probe(ctx, rng)
+        from emd import cycles as C          # (the reloaded module from here on)
     idx = 0
     for L in range(2, MAXLEN[ctx.tier] + 1):
         for seq in itertools.product(ALPHA, repeat=L):
@@ -212,6 +241,8 @@ def finalize(agg, tier):
 
 def replay(ctx, case):
     from emd import cycles as C
+    if case.get('kind') == 'reload':
+        return reload_probe(ctx, np.random.default_rng(0))
     if case.get('kind') == 'threads':
         for _ in range(5):
             if not thread_check(ctx, case['seed']):
